@@ -84,13 +84,47 @@ def run_one(entry):
     finally:
         shutil.rmtree(scr, ignore_errors=True)
 
+def seed_entries():
+    "the confirmed seeded changes kept under /verif/seeded/<id>/ (patch.diff + meta.json): the property's own check must raise"
+    out = []
+    root = os.path.join(VERIF, 'seeded')
+    for d in sorted(os.listdir(root)) if os.path.isdir(root) else []:
+        mp, pp = os.path.join(root, d, 'meta.json'), os.path.join(root, d, 'patch.diff')
+        if os.path.exists(mp) and os.path.exists(pp):
+            out.append((d, json.load(open(mp))['property'], pp))
+    return out
+
+def run_seed(entry):
+    name, check, patch = entry
+    scr = tempfile.mkdtemp(prefix='selftest_', dir='/tmp')
+    try:
+        shutil.copytree(os.path.join(REPO, 'pytableaux'), os.path.join(scr, 'pytableaux'))
+        r = subprocess.run(['patch', '-p1', '-s', '-d', scr, '-i', patch], capture_output=True, text=True)
+        if r.returncode != 0: return name, 'STALE', f'patch does not apply: {(r.stdout + r.stderr)[-120:]}'
+        env = dict(os.environ, VERIF_REPO=scr)
+        r = subprocess.run([os.path.join(VERIF, 'vf'), 'check', check], capture_output=True, text=True, env=env, timeout=1800)
+        viol = [l for l in r.stdout.splitlines() if l.startswith('VIOLATION')]
+        ok = r.returncode == 1 and bool(viol)
+        return name, 'ok' if ok else 'FAIL', f'{check} exit={r.returncode} violations={len(viol)} ' + (viol[0].split('#', 1)[-1].strip()[:100] if viol else '')
+    finally:
+        shutil.rmtree(scr, ignore_errors=True)
+        shutil.rmtree(os.path.join('/tmp/verif_scratch_out', os.path.basename(scr)), ignore_errors=True)
+
 def main(names):
     cat = [e for e in CATALOGUE if not names or e[0] in names or e[4] in names]
+    seeds = [e for e in seed_entries() if not names or e[0] in names or e[1] in names or 'seeds' in names]
+    if names == ['seeds']: cat = []
     bad = 0
+    with ThreadPoolExecutor(max_workers=3) as ex:
+        for name, status, detail in ex.map(run_seed, seeds):
+            print(f'{status:5s} {name:24s} {detail}')
+            sys.stdout.flush()
+            if status != 'ok': bad += 1
+    cat_n = len(cat) + len(seeds)
     with ThreadPoolExecutor(max_workers=4) as ex:
         for name, status, detail in ex.map(run_one, cat):
             print(f'{status:5s} {name:24s} {detail}')
             sys.stdout.flush()
             if status != 'ok': bad += 1
-    print(f'selftest: {len(cat) - bad}/{len(cat)} as expected')
+    print(f'selftest: {cat_n - bad}/{cat_n} as expected')
     return 1 if bad else 0
